@@ -1,6 +1,8 @@
 (* C20 driver: one case per input line, one canonical result line per case.
    HT <W|S|P> <n> ; idx ty v , ... ; op , op ...      ops: S k ty v | D k | G k | R n
-   AT <kind> <codes...>                       kind: i | u32 | u64 | sz         *)
+   AT <kind> <codes...>                       kind: i | u32 | u64 | sz
+   AF <codes...> | AF null                    affinity string (model with the F3 fix)
+   ENV nc=<cores> pg=<pagesize> NAME=c.c.c ...                                 *)
 let pr_res = function
   | RCode c -> "c" ^ string_of_z c
   | RGot (ty, v) -> "g" ^ string_of_z ty ^ ":" ^ string_of_z v
@@ -51,6 +53,74 @@ let do_at line =
      | None -> "AT " ^ kind ^ " err"
      | Some (v, o) -> "AT " ^ kind ^ " " ^ string_of_z v ^ " " ^ (if o then "1" else "0"))
   | _ -> failwith "bad AT line"
+(* digest of the id lists, in native ints (same formula as h_c20.c) *)
+let do_af line =
+  let arg = (match words line with
+      | _ :: "null" :: _ -> None
+      | _ :: codes -> Some (List.map z_of_string codes)
+      | [] -> failwith "bad AF line") in
+  match affinity_list_create arg with
+  | Fail -> "AF reject"
+  | Oob -> "AF MODEL-OOB"
+  | OutOfFuel -> "AF MODEL-OUT-OF-FUEL"
+  | IntOvf -> "AF MODEL-INT-OVERFLOW"
+  | Ok lists ->
+    let m = 0xFFFFFFFF in
+    let h = ref 0 and tot = ref 0 in
+    List.iter (fun l ->
+        h := (!h * 31 + 40503) land m;
+        List.iter (fun id -> h := (!h * 31 + ((int_of_z id) land m) + 1) land m; incr tot) l) lists;
+    let n = List.length lists in
+    let b = Buffer.create 64 in
+    Buffer.add_string b (Printf.sprintf "AF ok n=%d tot=%d h=%d" n !tot !h);
+    if !tot <= 48 && n <= 48 then begin
+      Buffer.add_char b ' ';
+      List.iter (fun l -> Buffer.add_string b ("{" ^ String.concat "," (List.map string_of_z l) ^ "}")) lists
+    end;
+    Buffer.contents b
+let evar_of_name = function
+  | "MAX_NUM_XSTREAMS" -> MAX_NUM_XSTREAMS | "KEY_TABLE_SIZE" -> KEY_TABLE_SIZE
+  | "STACK_OVERFLOW_CHECK" -> STACK_OVERFLOW_CHECK | "SYS_PAGE_SIZE" -> SYS_PAGE_SIZE
+  | "THREAD_STACKSIZE" -> THREAD_STACKSIZE | "SCHED_STACKSIZE" -> SCHED_STACKSIZE
+  | "SCHED_EVENT_FREQ" -> SCHED_EVENT_FREQ | "SCHED_SLEEP_NSEC" -> SCHED_SLEEP_NSEC
+  | "MUTEX_MAX_HANDOVERS" -> MUTEX_MAX_HANDOVERS | "MUTEX_MAX_WAKEUPS" -> MUTEX_MAX_WAKEUPS
+  | "HUGE_PAGE_SIZE" -> HUGE_PAGE_SIZE | "MEM_PAGE_SIZE" -> MEM_PAGE_SIZE
+  | "MEM_STACK_PAGE_SIZE" -> MEM_STACK_PAGE_SIZE | "MEM_MAX_NUM_STACKS" -> MEM_MAX_NUM_STACKS
+  | "MEM_MAX_NUM_DESCS" -> MEM_MAX_NUM_DESCS | "USE_LOG" -> USE_LOG | "USE_DEBUG" -> USE_DEBUG
+  | "PRINT_RAW_STACK" -> PRINT_RAW_STACK | "PRINT_CONFIG" -> PRINT_CONFIG
+  | s -> failwith ("unknown variable " ^ s)
+let starts_with p s = String.length s >= String.length p && String.sub s 0 (String.length p) = p
+let do_env line =
+  let nc = ref Z0 and pg = ref Z0 and env = ref [] in
+  List.iter (fun tok ->
+      if tok <> "ENV" then
+        match String.index_opt tok '=' with
+        | None -> failwith ("bad ENV token " ^ tok)
+        | Some k ->
+          let name = String.sub tok 0 k and v = String.sub tok (k + 1) (String.length tok - k - 1) in
+          if name = "nc" then nc := z_of_string v
+          else if name = "pg" then pg := z_of_string v
+          else begin
+            let codes = List.map z_of_string (split_on '.' v) in
+            let (long, suffix) =
+              if starts_with "ABT_ENV_" name then (true, String.sub name 8 (String.length name - 8))
+              else if starts_with "ABT_" name then (false, String.sub name 4 (String.length name - 4))
+              else failwith ("bad variable " ^ name) in
+            (* setenv overwrites: the last assignment of a name wins *)
+            let key = (long, evar_of_name suffix) in
+            env := (key, codes) :: List.filter (fun (k', _) -> k' <> key) !env
+          end)
+    (words line);
+  let s = c_env_init !nc !pg !env in
+  let b x = if x then "1" else "0" and z = string_of_z in
+  let base = Printf.sprintf
+      "ENV mx=%s log=%s dbg=%s kts=%s sg=%s sps=%s ts=%s ss=%s ef=%s sn=%s mh=%s mw=%s prs=%s hps=%s mps=%s msp=%s mms=%s mmd=%s pc=%s"
+      (z s.max_xstreams) (b s.use_logging) (b s.use_debug) (z s.key_table_size) (z s.stack_guard_kind)
+      (z s.sys_page_size) (z s.thread_stacksize) (z s.sched_stacksize) (z s.sched_event_freq)
+      (z s.sched_sleep_nsec) (z s.mutex_max_handovers) (z s.mutex_max_wakeups) (b s.print_raw_stack)
+      (z s.huge_page_size) (z s.mem_page_size) (z s.mem_sp_size) (z s.mem_max_stacks) (z s.mem_max_descs)
+      (b s.print_config) in
+  if sane !pg s then base ^ " sane=1 init=0 same=1 q=0 smoke=0" else base ^ " sane=0"
 let () =
   let ic = if Array.length Sys.argv > 1 then open_in Sys.argv.(1) else stdin in
   List.iter (fun line ->
@@ -58,5 +128,7 @@ let () =
       if line <> "" && line.[0] <> '#' then
         print_endline (if String.length line >= 2 && String.sub line 0 2 = "HT" then do_ht line
                        else if String.sub line 0 2 = "AT" then do_at line
+                       else if String.sub line 0 2 = "AF" then do_af line
+                       else if String.sub line 0 3 = "ENV" then do_env line
                        else failwith ("bad line: " ^ line)))
     (read_lines ic)
